@@ -708,6 +708,36 @@ func r09c(c *core.Ctx) {
 		for _, call := range core.Calls(pt) {
 			if strings.HasSuffix(core.CallName(call), "dnsmsg.Msg).Pack") {
 				k, _ := core.ConstInt(call.Common().Args[3])
+				// the limit may reach Pack through a shared helper's clamp (`if size > 65535 { size = 65535 }` on the
+				// constant 65535): every constant that can arrive must be 65535
+				if kk, ok := constOnAllPaths(call.Common().Args[3], 0); ok {
+					k = kk
+				}
+				if p, isPhi := call.Common().Args[3].(*ssa.Phi); isPhi && k != 65535 {
+					all, n := true, 0
+					seen := map[*ssa.Phi]bool{}
+					var walk func(ph *ssa.Phi)
+					walk = func(ph *ssa.Phi) {
+						if seen[ph] {
+							return
+						}
+						seen[ph] = true
+						for _, e := range ph.Edges {
+							if p2, ok := e.(*ssa.Phi); ok {
+								walk(p2)
+								continue
+							}
+							n++
+							if kk, isC := core.ConstInt(e); !isC || kk != 65535 {
+								all = false
+							}
+						}
+					}
+					walk(p)
+					if all && n > 0 {
+						k = 65535
+					}
+				}
 				c.Check(k == 65535, "tcp-limit", call.Pos(), pt, "framed transports pack with limit 65535 (the 2-byte prefix cannot express more)", fmt.Sprint(k))
 			}
 		}
@@ -788,4 +818,45 @@ func counterIncrements(v ssa.Value) ([]*ssa.BinOp, bool) {
 	}
 	walk(v)
 	return incs, ok
+}
+
+
+// constOnAllPaths: v is the same integer constant however it is reached: a constant, a phi of such values that agree,
+// min/max of such values.
+func constOnAllPaths(v ssa.Value, d int) (int64, bool) {
+	if d > 6 {
+		return 0, false
+	}
+	if k, ok := core.ConstInt(v); ok {
+		return k, true
+	}
+	switch x := v.(type) {
+	case *ssa.Convert:
+		return constOnAllPaths(x.X, d+1)
+	case *ssa.Phi:
+		var val int64
+		for i, e := range x.Edges {
+			k, ok := constOnAllPaths(e, d+1)
+			if !ok || i > 0 && k != val {
+				return 0, false
+			}
+			val = k
+		}
+		return val, len(x.Edges) > 0
+	case *ssa.Call:
+		if b, ok := x.Call.Value.(*ssa.Builtin); ok && (b.Name() == "min" || b.Name() == "max") && len(x.Call.Args) > 0 {
+			var val int64
+			for i, a := range x.Call.Args {
+				k, ok := constOnAllPaths(a, d+1)
+				if !ok {
+					return 0, false
+				}
+				if i == 0 || b.Name() == "min" && k < val || b.Name() == "max" && k > val {
+					val = k
+				}
+			}
+			return val, true
+		}
+	}
+	return 0, false
 }
